@@ -33,6 +33,20 @@ class Mon(object):
 
     def event(self, line, toks):
         st = self.st
+        if toks[0] == "fxf":
+            # fixed -> float through the From / LossyFrom trait spellings (impls exist for lossless pairs only; generated list)
+            S = lay(toks[2])
+            w = int(toks[3])
+            a = int(toks[4], 16)
+            A = S.val(a)
+            e = "V:%x" % encode_float(w, A, S.f)
+            for name, t in (("from", toks[6]), ("lossy_from_trait", toks[7])):
+                st.checks += 1
+                if t != e:
+                    st.violation("C05:%s:%s:%s->f%d" % (name, "panic" if t[0] == "P" else "wrong", S.family(), w), line,
+                                 "got %s expected %s (value bits %d / 2^%d)" % (panic_text(t) if t[0] == "P" else t, e, A, S.f))
+            st.cover(S.name, "fxf%d" % w, (opclass(S, a),), a != 0, line)
+            return
         if toks[0] not in ("fl", "zl"):
             return
         az = toks[0] == "zl"
